@@ -3,10 +3,10 @@
    token level + exact bytes), Model/AspParse.v (lexer, PEG phase, pest's Pratt algorithm,
    rule/program structure); operator tables: Gen/TablesAsp.v, regenerated from default.rs and
    pest.rs before every build. *)
-From Coq Require Import List String ZArith.
+From Coq Require Import List Ascii String ZArith.
 Import ListNotations.
 From Anthem Require Import Syntax.Asp Model.AspTableTypes Gen.TablesAsp Model.AspPrint Model.AspParse
-  Proofs.AspRoundTrip Proofs.AspLex Proofs.AspImage.
+  Model.AspNodes Proofs.AspRoundTrip Proofs.AspLex Proofs.AspImage Proofs.AspFuel.
 Open Scope string_scope.
 
 (* Terms: whatever follows the printed term (anything but an infix operator: in a program a term
@@ -156,3 +156,72 @@ Example C14_nonvacuous_program :
       mkrule (HBasic (mkatom "r" [])) [] ] in
   parse_program_text (display_program p) = POk p.
 Proof. vm_compute. reflexivity. Qed.
+
+(* ---- the model's own fuel (second audit, B17).  Every non-structural recursion of Model/AspParse.v and
+   Model/AspNodes.v runs on a counter computed from the size of its input; an exhausted counter would
+   look like a rejection (lex_go, peg_term: None; pratt_expr/nud/loop: PFail) or like a shorter parse
+   (skip_layout, peg_tail, parse_more_terms, parse_more_bformulas, parse_rules stop iterating).  These
+   are ALL the counters of the model (the other Fixpoints are structural): the three theorems below
+   say, for each of them, that the value at the bound used at its call site(s) is the value at EVERY
+   larger counter -- so no answer of lex / lex_node / parse_term / parse_program_text / parse_node_text
+   is an artefact of the counter.  Call sites: lex = lex_go (S (length s)); lex_node = skip_layout
+   (S (length s)), lex_go (S (length r)); parse_term = peg_term (S (length ts)), in it peg_tail
+   (peg_term f) (length r), then pratt = pratt_expr (2 * items_size items + 2); parse_term_tuple =
+   parse_more_terms (length r'); parse_body / body_toks = parse_more_bformulas (length r);
+   parse_program_from = parse_rules (S (length ts)). *)
+Open Scope list_scope.
+Theorem C14_fuel_lexer :
+  (forall f o s, String.length s < f -> lex_go f o s = lex_go (S (String.length s)) o s) /\
+  (forall f s, String.length s < f -> skip_layout f s = skip_layout (S (String.length s)) s) /\
+  (forall f1 f2 f3 s, String.length s < f1 -> String.length s < f2 -> String.length s < f3 ->
+     lex_node_with f1 f2 f3 s = lex_node s).
+Proof. exact fuel_lexer. Qed.
+Print Assumptions C14_fuel_lexer.
+
+(* in the Pratt phase PFail is an exhausted counter and nothing else (every other arm is POk or PPanic),
+   so there the statement is also: it never fails *)
+Theorem C14_fuel_term :
+  (forall f ts, List.length ts < f -> peg_term f ts = peg_term (S (List.length ts)) ts) /\
+  (forall f n ts, List.length ts <= n ->
+     peg_tail (peg_term f) n ts = peg_tail (peg_term f) (List.length ts) ts) /\
+  (forall F rbp items, 2 * items_size items + 2 <= F ->
+     pratt_expr F rbp items = pratt_expr (2 * items_size items + 2) rbp items /\
+     pratt_expr F rbp items <> PFail) /\
+  (forall items, pratt items <> PFail) /\
+  (forall f g ts, List.length ts < f -> (forall items, 2 * items_size items + 2 <= g items) ->
+     parse_term_with f g ts = parse_term ts).
+Proof. exact fuel_term. Qed.
+Print Assumptions C14_fuel_term.
+
+Theorem C14_fuel_lists :
+  (forall n ts, List.length ts <= n -> parse_more_terms n ts = parse_more_terms (List.length ts) ts) /\
+  (forall n ts, List.length ts <= n ->
+     parse_more_bformulas n ts = parse_more_bformulas (List.length ts) ts) /\
+  (forall n g ts, List.length ts < n -> parse_rules n g ts = parse_rules (S (List.length ts)) g ts).
+Proof. exact fuel_lists. Qed.
+Print Assumptions C14_fuel_lists.
+
+(* [lex_node_with] / [parse_term_with] are lex_node / parse_term with the computed counters replaced by
+   parameters; at the computed values they ARE lex_node / parse_term *)
+Example C14_fuel_with_defs : forall s ts,
+  lex_node_with (S (String.length s)) (S (String.length s)) (S (String.length s)) s =
+    (if leading_skip s then
+       match skip_layout (S (String.length s)) s with
+       | String "-" r => option_map (cons TkNeg) (lex_go (S (String.length s)) true r)
+       | _ => lex s
+       end
+     else lex s) /\
+  parse_term_with (S (List.length ts)) (fun items => 2 * items_size items + 2) ts = parse_term ts.
+Proof. intros. split; reflexivity. Qed.
+
+(* not vacuous: with a counter BELOW the bound the answer does change (so the bound matters), and
+   deeply nested / long inputs are parsed at exactly the computed bound *)
+Example C14_fuel_nonvacuous :
+  lex_go 3 true "a+b" = None /\ lex_go 4 true "a+b" = Some [TkSym "a"; TkBin AAdd; TkSym "b"] /\
+  peg_term 2 [TkLP; TkLP; TkNum 1; TkRP; TkRP] = None /\
+  parse_term [TkLP; TkLP; TkNum 1; TkRP; TkRP] = POk (TPre (PNum 1), []) /\
+  pratt_expr 3 0 [IPre; ILeaf (TVar "X")] = PFail /\
+  pratt [IPre; ILeaf (TVar "X")] = POk (TUn AUNeg (TVar "X")) /\
+  parse_rules 1 false [TkSym "p"; TkDot; TkSym "q"; TkDot] = POk ([mkrule (HBasic (mkatom "p" [])) []], [TkSym "q"; TkDot]) /\
+  parse_program_text "p. q :- ((((((((((((1)))))))))))) = ------------X, not not p(1,2,3,4,5,6,7,8,9,1+2+3+4+5+6+7+8+9)." <> PFail.
+Proof. repeat split; try (vm_compute; reflexivity). vm_compute. discriminate. Qed.
